@@ -19,10 +19,10 @@ CLAIMED = {
         design_ref="DESIGN.md §4 C02",
         note="Trusted: Coq kernel + vm_compute; the translator's over-approximation argument (the certificate itself is untrusted); sticky EOF of the lexer (C12). Memory bound argued, not proved."),
     "C04": dict(
-        technique="Coq: verified decision procedure for EXPLAIN tree well-formedness (sound+complete) + proofs of count = emitted children on models of the SELECT printers of the DDL printers (Column, Index, CreateQuery with its Columns/Storage sub-tallies, AlterCommand, AlterQuery, projections, statistics), of the remaining statement printers and of the expression/function printers; extraction-based correspondence on ASTs built directly and oracle run on corpus + grammar statements",
+        technique="Coq: verified decision procedure for EXPLAIN tree well-formedness (sound+complete) + proofs of count = emitted children on models of the SELECT printers of the DDL printers (Column, Index, CreateQuery with its Columns/Storage sub-tallies, AlterCommand, AlterQuery, projections, statistics), of the remaining statement printers and of the expression/function printers + line-break freedom of literal and type lines (C04_lines); extraction-based correspondence on ASTs built directly and oracle run on corpus + grammar statements",
         text="C04_tree: check_text accepts exactly the texts that are one rooted tree in EXPLAIN AST layout with correct (children N), no Go artefacts and ClickHouse node kinds (sound and complete w.r.t. rendering of rose trees). C04_select: for the SelectQuery, SelectWithUnionQuery (every union tail), inherited-WITH and intersect printers — transcribed with the count code and the emit code kept separate as in Go — the header count equals the number of emitted children for every field combination (iff the parser-established LIMIT BY invariant for SelectQuery), hence the output is a tree. Tied by Go-vs-extracted-model comparison on ASTs built directly (exhaustive 2^16/2^13 field combinations) and by running the extracted verified checker on the real EXPLAIN of every corpus statement.",
         design_ref="DESIGN.md §4 C04",
-        note="C04_ddl: for Column/Index/projection/Columns-definition/Storage-definition/dictionary/AlterQuery the header count equals the emitted children unconditionally; for AlterCommand and CreateQuery it is an equivalence with an explicit condition (inv_alter_count / inv_create) that excludes only field combinations the parser cannot produce or accepts only for invalid ClickHouse. C04_stmt: the same for the remaining statement printers (INSERT, DROP, RENAME, EXCHANGE, TRUNCATE, OPTIMIZE, DELETE, CHECK, USE, DESCRIBE, EXISTS, SHOW, SYSTEM, EXPLAIN, ATTACH/DETACH, BACKUP/RESTORE, KILL, CREATE INDEX, UPDATE, PARALLEL WITH, the one-line access-control statements), dictionary.go and tables.go: 151 theorems, unconditional for 22 printers, equivalences with explicit inv_* conditions for the rest (the excluded combinations are unreachable from the parser or accepted only for invalid ClickHouse; witnesses are proved as *_refuted lemmas and listed in the evidence). C04_expr: the expression and function printers (expressions.go, functions.go: 76 per-printer theorems over abstract children, IN / function / asterisk / COLUMNS families, the aliased-vs-plain relations with their *_drift_refuted witnesses, and C04_expr_is_tree / C04_expr_check_lines / C04_expr_header_eq_direct_children over the whole expression AST under inv_expr; 131 theorems), tied by the exprcount Go-vs-extracted-model comparison over per-kind products of element classes. Partial: data-type strings and the text inside one line (format.go) are covered only by the verified oracle applied to real output (search), not by a model. Trusted: hand-written printer model (validated by correspondence), extraction, node-kind generator."),
+        note="C04_ddl: for Column/Index/projection/Columns-definition/Storage-definition/dictionary/AlterQuery the header count equals the emitted children unconditionally; for AlterCommand and CreateQuery it is an equivalence with an explicit condition (inv_alter_count / inv_create) that excludes only field combinations the parser cannot produce or accepts only for invalid ClickHouse. C04_stmt: the same for the remaining statement printers (INSERT, DROP, RENAME, EXCHANGE, TRUNCATE, OPTIMIZE, DELETE, CHECK, USE, DESCRIBE, EXISTS, SHOW, SYSTEM, EXPLAIN, ATTACH/DETACH, BACKUP/RESTORE, KILL, CREATE INDEX, UPDATE, PARALLEL WITH, the one-line access-control statements), dictionary.go and tables.go: 151 theorems, unconditional for 22 printers, equivalences with explicit inv_* conditions for the rest (the excluded combinations are unreachable from the parser or accepted only for invalid ClickHouse; witnesses are proved as *_refuted lemmas and listed in the evidence). C04_expr: the expression and function printers (expressions.go, functions.go: 76 per-printer theorems over abstract children, IN / function / asterisk / COLUMNS families, the aliased-vs-plain relations with their *_drift_refuted witnesses, and C04_expr_is_tree / C04_expr_check_lines / C04_expr_header_eq_direct_children over the whole expression AST under inv_expr; 131 theorems), tied by the exprcount Go-vs-extracted-model comparison over per-kind products of element classes. C04_lines (47 theorems over the literal and type models of C09 / C18, tied here by their model-vs-code runs): the text of a literal line contains none of the bytes 0, 8, 9, 10, 12, 13 for every token list (numbers use a fixed alphabet), a type line contains no line break exactly when no raw name of the type does (equivalence; well-formed types and token lists without such a quoted identifier: unconditionally), with *_refuted witnesses for the false general statements (negated string elements inside FormatLiteral, masked by explainLiteral; `Tuple(`a<LF>b` UInt8)`; control bytes 1-7, 11, 14-31 are copied). Partial: names and aliases are copied unescaped (the property excludes names with line breaks); data types beneath columns are covered only by the verified oracle applied to real output. Trusted: hand-written printer model (validated by correspondence), extraction, node-kind generator."),
     "C05": dict(
         technique="Coq proofs on the lexer model (separator invisibility, follow-independence, keyword case, position blindness) + abstract-machine indistinguishability theorem instantiated by a generated inventory of position/raw-value reads; metamorphic re-layout run",
         text="C05: over the lexer model, replacing/inserting/removing separators (all whitespace runes, --/# comments, nested block comments) at a token boundary leaves the comment-free token kinds and values unchanged, keyword case never changes a token kind, and the lexer is blind to positions; over parser and printer, the inventory regenerated from /repo shows positions are only copied into nodes, printed in error messages, compared in progress guards or used for the spacing detection inside ::-operand literals (the stated exception), and no raw token value is compared case-sensitively with a keyword-like constant — so by the abstract-machine theorem sig-equal token lists are indistinguishable; semicolon clauses by the driver theorems. Every corpus statement is re-laid-out K times on the implementation and EXPLAIN compared.",
